@@ -138,7 +138,7 @@ def run_one(m, slot):
     t0 = time.time()
     try:
         try:
-            fp = core.export_facts(repo=d, tag=f'ms-{slot}', target=selftest.worker_target(slot))
+            fp = core.export_facts(repo=d, tag=f'ms-{slot}', target=selftest.worker_target(10 + slot))
         except core.AnalysisFailed as e:
             return dict(id=m['id'], status='does-not-compile', why=str(e)[:160])
         try:
